@@ -248,6 +248,8 @@ class Printer:
                 return "mk(%d)" % e["tag"]
             if f == "use":
                 return "use_tr(%s)" % self.ex(e["args"][0])
+            if f == "optif":
+                return "optif_%s(%d, %s, %s)" % (e["ty"], e["tag"], self.ex(e["args"][0]), self.ex(e["args"][1]))
             if f == "tick":
                 return "tick(%d)" % e["tag"]
         if k == "ret":
